@@ -4,9 +4,9 @@ CONSTANTS
   Ls = {0, 6, 9}
   SPs = {0, 4}
   MaxExotic = 1
-  D12_EmptyLogPanics = TRUE
+  D12_EmptyLogPanics = FALSE
   D16_TimeoutDropsPartials = TRUE
-  D17_SkipSurvivesTimeout = TRUE
+  D17_SkipSurvivesTimeout = FALSE
   D20_BackslashNIsEnd = TRUE
-INVARIANTS TypeOK CutInRange BufBounded TimeoutOnlyWhileCollapsed StatementOK ResidualOK DevSwitched Export
+INVARIANTS TypeOK NoPanic CutInRange BufBounded TimeoutOnlyWhileCollapsed StatementOK ResidualOK DevSwitched Export
 CHECK_DEADLOCK FALSE
